@@ -11,6 +11,7 @@ import (
 	"encoding/json"
 	"fmt"
 	"math"
+	"math/rand/v2"
 	"sort"
 	"strconv"
 	"strings"
@@ -46,7 +47,7 @@ func runC26(c *Ctx) {
 
 	// (a) structured scenarios, evaluated in Coq too
 	for i := 0; i < c.pick(70, 900); i++ {
-		e.scenario(i)
+		e.sub(func() { e.scenario(i) })
 	}
 	// (b) volumes: entry counts from 1 to tens (quick) / hundreds (thorough) of thousands, rates across (0,1)
 	vols := []int{1, 60, 3000, 50000}
@@ -60,7 +61,7 @@ func runC26(c *Ctx) {
 	}
 	for vi, v := range vols {
 		for ri, p := range rates {
-			e.volume(vi*100+ri, v, p)
+			e.sub(func() { e.volume(vi*100+ri, v, p) })
 		}
 	}
 	e.emptySets()
@@ -69,10 +70,21 @@ func runC26(c *Ctx) {
 		n int
 		p float64
 	}{{1, 0.001}, {3, 0.001}, {1, 0.01}} {
-		e.tinyAggregate(i, cfg.n, cfg.p)
+		e.sub(func() { e.tinyAggregate(i, cfg.n, cfg.p) })
 	}
 	// (d) buildSizedBloomFilter alone: exhaustive small n, random large n, random rates
 	e.componentSweep()
+}
+
+// sub runs f on a sub-stream seeded from c.rng. The engine iterates Go maps (flush and merge
+// block order), so the number of draws inside one scenario is not a function of the seed;
+// with a stream per scenario the following scenarios still are.
+func (e *c26Env) sub(f func()) {
+	c := e.c
+	old := c.rng
+	c.rng = rand.New(rand.NewPCG(old.Uint64(), old.Uint64()))
+	defer func() { c.rng = old }()
+	f()
 }
 
 // ---------------------------------------------------------------- one filter set
@@ -136,8 +148,8 @@ func (e *c26Env) checkFilterSet(fc filterCtx, fs obsFilterSet, rows []rowEnt, st
 		if missing > 0 {
 			c.violation("c26-missing-entry", fmt.Sprintf("%s %s: %d %s entries of the covered rows test negative", fc.scen, fc.where, missing, classNames[cl]), desc)
 		}
-		if stat && n >= statMinN && f.Cap() == mExp && f.K() == kExp {
-			e.statCheck(fc, classNames[cl], f, uint(n), desc)
+		if stat && n >= statMinN {
+			e.statCheck(fc, classNames[cl], f, uint(n), mExp, kExp, desc)
 		}
 	}
 	return need
@@ -194,12 +206,15 @@ func probeFilter(f *bloom.BloomFilter, tag uint64, N int) int {
 	return pos
 }
 
-func (e *c26Env) statCheck(fc filterCtx, class string, f *bloom.BloomFilter, n uint, desc map[string]any) {
+// statCheck judges occupancy and measured rate against what a filter with the expected (m, k)
+// holding exactly n entries shows. It does not rely on Cap/K having been found right: a
+// filter of another size is judged by its fill fraction and by its measured rate alone.
+func (e *c26Env) statCheck(fc filterCtx, class string, f *bloom.BloomFilter, n uint, mExp, kExp uint, desc map[string]any) {
 	c := e.c
 	p := fc.builtRate
 	N := probeCount(p)
-	b := rateTolerance(n, f.Cap(), f.K(), N)
-	X := float64(f.BitSet().Count())
+	b := rateTolerance(n, mExp, kExp, N)
+	X := float64(f.BitSet().Count()) * float64(mExp) / float64(f.Cap()) // fill fraction, on the expected scale
 	pos := probeFilter(f, c.rng.Uint64(), N)
 	desc["set_bits"], desc["set_bits_tolerance"] = X, [2]float64{b.XLo, b.XHi}
 	desc["probes"], desc["positives"], desc["positives_tolerance"] = N, pos, [2]float64{b.PosLo, b.PosHi}
@@ -207,8 +222,8 @@ func (e *c26Env) statCheck(fc filterCtx, class string, f *bloom.BloomFilter, n u
 	c.dist("measured_rate", "checked/"+class)
 	c.dist("rate_over_p", fmt.Sprintf("%.1f", float64(pos)/float64(N)/p))
 	if X < b.XLo || X > b.XHi {
-		c.violation("c26-occupancy", fmt.Sprintf("%s %s: %s filter (n=%d, p=%v, m=%d, k=%d) has %d bits set; a filter that received exactly its %d distinct entries has %.0f..%.0f",
-			fc.scen, fc.where, class, n, p, f.Cap(), f.K(), int(X), n, b.XLo, b.XHi), desc)
+		c.violation("c26-occupancy", fmt.Sprintf("%s %s: %s filter (n=%d, p=%v, Cap=%d, K=%d) has %.4f of its bits set; a filter with the expected m=%d, k=%d that received exactly its %d distinct entries has %.4f..%.4f",
+			fc.scen, fc.where, class, n, p, f.Cap(), f.K(), X/float64(mExp), mExp, kExp, n, b.XLo/float64(mExp), b.XHi/float64(mExp)), desc)
 	}
 	if float64(pos) < b.PosLo || float64(pos) > b.PosHi {
 		c.violation("c26-rate-measured", fmt.Sprintf("%s %s: %s filter (n=%d, p=%v): %d of %d absent probes positive (%.3g = %.2f p); tolerance %.0f..%.0f",
@@ -216,7 +231,7 @@ func (e *c26Env) statCheck(fc filterCtx, class string, f *bloom.BloomFilter, n u
 	}
 	if r := b.QTh / p; r < kSlackLo || r > kSlackHi {
 		c.violation("c26-analytic", fmt.Sprintf("%s %s: EstimateParameters(%d, %v) = (m=%d, k=%d) has ideal-hash rate %.4g = %.3f p, outside the k-rounding slack [%.2f, %.2f]",
-			fc.scen, fc.where, n, p, f.Cap(), f.K(), b.QTh, r, kSlackLo, kSlackHi), desc)
+			fc.scen, fc.where, n, p, mExp, kExp, b.QTh, r, kSlackLo, kSlackHi), desc)
 	}
 }
 
